@@ -30,4 +30,11 @@ CLAIMED = {
               "and every sentinel os matches. Subjects: mem, keyvalue/plain store, os.FS under 1-3 Sub roots, mount.FS with 0/1/2 nested mounts, Sub(mem), Sub(Sub(mem)), Sub(mount) at a mount point. Sampled exploration."),
         note="Op strings are not compared; for RemoveAll the name passed in is accepted besides the ancestor os names; ErrNotImplemented (unsupported op, e.g. Rename through a generic Sub view) only needs type+path; mount-boundary operations are left to C06",
     ),
+    "C04": dict(
+        technique="property-based testing with rapid (boundary construction around io/fs.ValidPath + fuzzed strings) and native coverage-guided go fuzzing in the thorough tier; oracle = error class + unchanged snapshots of every constituent FS",
+        text=("For 9 subjects (mem, keyvalue/plain, nested mounts, Sub(mem), Sub(mount), cache, tar, os.FS, Sub over a lenient Open-only FS) in generated start states, every helper is probed with names at the ValidPath boundary, "
+              "fuzzed names and valid odd names; invalid names must give ErrInvalid and leave every constituent file system (and the os directory with its sentinel sibling) unchanged; valid names are never refused as invalid "
+              "and backslash/colon are literal name bytes. Thorough adds a 45 s native fuzz campaign (~1M executions) over (subject, helper, position, name bytes)."),
+        note="validity oracle is the standard library; 'no OS path reached the kernel' is approximated by directory + sentinel snapshots; ErrNotImplemented accepted where the helper is unsupported for valid names too",
+    ),
 }
